@@ -18,6 +18,7 @@ import (
 	"strings"
 	"testing"
 
+	"github.com/ollama/ollama/api"
 	"github.com/ollama/ollama/zzverif"
 )
 
@@ -25,7 +26,7 @@ import (
 
 func c3NewCase(tag string) *c3Case {
 	return &c3Case{nparts: numDownloadParts, minSize: minDownloadPartSize, maxSize: maxDownloadPartSize,
-		retries: maxRetries, fixed: c3ProbeFixed(), realm: []byte(c3Realm), tag: tag, reg: c3Manifest{config: c3Layer{"e", 0}}}
+		retries: maxRetries, variant: c3Variant, realm: []byte(c3Realm), tag: tag, reg: c3Manifest{config: c3Layer{"e", 0}}}
 }
 
 func (c *c3Case) addLayer(content []byte, asConfig bool) string {
@@ -923,6 +924,8 @@ func TestVerifC03(t *testing.T) {
 	out := zzverif.NewOut()
 	defer out.Close()
 	c3Setup(t, t.TempDir())
+	c3ProbeVariant(t)
+	out.Add("variant_mask", c3Variant)
 	root := zzverif.NewRng(zzverif.Seed())
 
 	if rp := os.Getenv("VERIF_REPLAY"); rp != "" {
@@ -1089,4 +1092,58 @@ func c3ProbeFixed() bool {
 		}()
 	}
 	return c3FixedProbe == 1
+}
+
+// c3Variant: which repaired behaviours the tree under test shows, found by EXECUTING the real code on the
+// witness inputs of the findings (so the model follows the tree, pinned or patched, with no manual constant):
+//
+//	1 getValue checks its bounds (F5)            2 downloadBlob rejects "" (C03-emptydigest)
+//	4 a digest listed twice is still verified     8 a fresh layer is verified before the next one is fetched (F6)
+var c3Variant int
+
+func c3ProbeRun(t *testing.T, c *c3Case) string {
+	c.fixUniv()
+	models := filepath.Join(t.TempDir(), "models")
+	c3Materialise(c, models)
+	return c3RunAttempt(t, c, &c.attempts[0], models, "").class
+}
+
+func c3ProbeVariant(t *testing.T) {
+	v := 0
+	if c3ProbeFixed() {
+		v |= 1
+	}
+	// "" digest: pinned code panics on digest[7:19]
+	func() {
+		os.Setenv("OLLAMA_MODELS", filepath.Join(t.TempDir(), "models"))
+		defer func() {
+			if recover() == nil {
+				v |= 2
+			}
+		}()
+		_, _ = downloadBlob(context.Background(), downloadOpts{digest: "", regOpts: &registryOptions{}, fn: func(api.ProgressResponse) {}})
+	}()
+	A, B := []byte("probe-layer-A-0123456789"), []byte("probe-layer-B")
+	// F6 witness: A is an error page, B's HEAD is 404.  Pinned: err:notfound (A stays); repaired: digest mismatch on A at once.
+	{
+		c := c3NewCase("probe")
+		dA := c.addLayer(A, false)
+		dB := c.addLayer(B, false)
+		c.attempts = []c3Attempt{{ls: []c3LScript{{dig: dA, chunks: [][]c3Chunk{{{src: "junk", junk: bytes.Repeat([]byte("X"), 64), cut: -1, end: "eof"}}}},
+			{dig: dB, head: []c3Reply{c3K("notfound")}}}}}
+		if c3ProbeRun(t, c) == "err:digest-mismatch" {
+			v |= 8
+		}
+	}
+	// repeated digest with one flipped byte.  Pinned: ok; repaired (either way): digest mismatch.
+	{
+		c := c3NewCase("probe")
+		dA := c.addLayer(A, false)
+		c.reg.layers = append(c.reg.layers, c.reg.layers[0])
+		c.attempts = []c3Attempt{{ls: []c3LScript{{dig: dA, chunks: [][]c3Chunk{{{src: "flip", flip: 3, cut: -1, end: "eof"}}}}}}}
+		if c3ProbeRun(t, c) == "err:digest-mismatch" {
+			v |= 4
+		}
+	}
+	c3Variant = v
 }
